@@ -17,6 +17,7 @@
 #include "C14/machine.h"
 #include <igris/container/static_vector.h>
 #include <igris/container/static_string.h>
+#include <igris/container/unbounded_array.h>
 
 using namespace hv;
 using namespace c14;
@@ -30,6 +31,154 @@ namespace
         template <size_t N> using str = igris::static_string<N>;
     };
 }
+
+// ------------------------------------------------------------------ unbounded_array
+// (anchored by C14, repaired for C03): K heap arrays of a ledger element type.
+//   reset ua <int|trk> <K>
+//   unew r n | ufrom r v… | uil r v… | ucopy r s | umove r s | uassign r s |
+//   uresize r n | ufill r x | uset r i x | uclear r | udel r | finish
+// Observable: size + contents of every array, number of live elements.
+template <class T> struct UMachine : IMachine
+{
+    using Arr = igris::unbounded_array<T>;
+    using ET = ElemTraits<T>;
+    struct Reg
+    {
+        std::unique_ptr<Place> place;
+        Arr *a = nullptr;
+        std::vector<int> ref;
+    };
+    int K;
+    std::vector<Reg> regs;
+    UMachine(int k) : K(k), regs(k)
+    {
+        L().reset();
+        L().loose = true;
+    }
+    ~UMachine() override { L().reset(); }
+    bool has(int r) { return r >= 0 && r < K && regs[r].a; }
+    bool empty_reg(int r) { return r >= 0 && r < K && !regs[r].a; }
+    void *place(int r)
+    {
+        regs[r].place.reset(new Place(false, sizeof(Arr)));
+        return regs[r].place->obj;
+    }
+    void drop(int r)
+    {
+        regs[r].a->~Arr();
+        regs[r].a = nullptr;
+        regs[r].ref.clear();
+        regs[r].place.reset();
+    }
+    void op(const std::vector<std::string> &w, hv::out &o) override
+    {
+        const std::string &c = w[0];
+        auto R = [&](size_t i) { return i < w.size() ? atoi(w[i].c_str()) : -1; };
+        int r = R(1), s = R(2);
+        bool bad = false;
+        if (c == "unew")
+        {
+            if (!empty_reg(r) || s < 0) bad = true;
+            else { regs[r].a = new (place(r)) Arr((size_t)s); regs[r].ref.assign((size_t)s, 0); }
+        }
+        else if (c == "ufrom" || c == "uil")
+        {
+            if (!empty_reg(r)) bad = true;
+            else
+            {
+                std::vector<int> xs = ints_from(w, 2);
+                {
+                    std::vector<T> src;
+                    src.reserve(xs.size());
+                    for (int x : xs) src.emplace_back(x);
+                    if (c == "ufrom")
+                        regs[r].a = new (place(r)) Arr((const T *)src.data(), src.size());
+                    else
+                        regs[r].a = new (place(r)) Arr(make_il<T>(src.data(), src.size()));
+                }
+                regs[r].ref = xs;
+            }
+        }
+        else if (c == "ucopy" || c == "umove")
+        {
+            if (!empty_reg(r) || !has(s)) bad = true;
+            else if (c == "ucopy") { regs[r].a = new (place(r)) Arr(*(const Arr *)regs[s].a); regs[r].ref = regs[s].ref; }
+            else { regs[r].a = new (place(r)) Arr(std::move(*regs[s].a)); regs[r].ref = regs[s].ref; regs[s].ref.clear(); }
+        }
+        else if (c == "uassign")
+        {
+            if (!has(r) || !has(s)) bad = true;
+            else { *regs[r].a = *(const Arr *)regs[s].a; regs[r].ref = regs[s].ref; if (r == s) o.tag("self-assign"); }
+        }
+        else if (c == "uresize")
+        {
+            if (!has(r) || s < 0) bad = true;
+            else { regs[r].a->resize((size_t)s); regs[r].ref.assign((size_t)s, 0); }
+        }
+        else if (c == "ufill")
+        {
+            if (!has(r)) bad = true;
+            else { T x = ET::make(s); regs[r].a->fill(x); for (auto &e : regs[r].ref) e = s; }
+        }
+        else if (c == "uset")
+        {
+            int x = R(3);
+            if (!has(r) || s < 0 || (size_t)s >= regs[r].ref.size()) bad = true;
+            else { T t = ET::make(x); (*regs[r].a)[(size_t)s] = t; regs[r].ref[(size_t)s] = x; }
+        }
+        else if (c == "uclear")
+        {
+            if (!has(r)) bad = true;
+            else { regs[r].a->clear(); regs[r].ref.clear(); }
+        }
+        else if (c == "udel")
+        {
+            if (!has(r)) bad = true;
+            else drop(r);
+        }
+        else if (c == "finish")
+        {
+            for (int q = K - 1; q >= 0; q--)
+                if (has(q)) drop(q);
+            if (ET::trk && (L().ctors != L().dtors || !L().live.empty()))
+                o.fail("constructed " + std::to_string(L().ctors) + " destroyed " + std::to_string(L().dtors));
+        }
+        else { o.result = "bad-op"; return; }
+        if (bad) { o.result = "bad"; return; }
+        std::string st;
+        size_t total = 0;
+        for (int q = 0; q < K; q++)
+        {
+            if (q) st += " ";
+            st += std::to_string(q) + ":";
+            if (!regs[q].a) { st += "-"; continue; }
+            Arr &a = *regs[q].a;
+            st += std::to_string(a.size()) + "[";
+            if (a.size() != regs[q].ref.size()) o.fail("array " + std::to_string(q) + " size " + std::to_string(a.size()) + " expected " + std::to_string(regs[q].ref.size()));
+            size_t i = 0;
+            for (auto &e : (const Arr &)a)
+            {
+                RE g = ET::get(e);
+                if (i) st += ",";
+                st += show(g);
+                if (i < regs[q].ref.size() && (g.moved || g.v != regs[q].ref[i])) o.fail("array " + std::to_string(q) + " element " + std::to_string(i));
+                i++;
+            }
+            st += "]";
+            if (i != a.size()) o.fail("begin()/end()");
+            total += regs[q].ref.size();
+        }
+        for (auto &e : L().errors) o.fail(e);
+        L().errors.clear();
+        if (ET::trk)
+        {
+            if ((size_t)(L().ctors - L().dtors) != total) o.fail("ledger: " + std::to_string(L().ctors - L().dtors) + " live elements, sizes sum to " + std::to_string(total));
+            o.result = st + " | " + std::to_string(L().ctors - L().dtors);
+        }
+        else
+            o.result = st + " | -";
+    }
+};
 
 static std::unique_ptr<IMachine> mach;
 
@@ -56,6 +205,12 @@ static void run_op(const std::vector<std::string> &w, const std::string &, out &
             size_t N = (size_t)atoi(w[3].c_str());
             int K = atoi(w[4].c_str());
             mach.reset(p ? make_str_portable(N, K, can) : make_str<TwinC>(N, K, can));
+        }
+        else if (w.size() == 4 && w[1] == "ua")
+        {
+            int K = atoi(w[3].c_str());
+            if (w[2] == "trk") mach.reset(new UMachine<Tracked>(K));
+            else mach.reset(new UMachine<int>(K));
         }
         o.result = mach ? "ok" : "bad-reset";
         return;
@@ -403,6 +558,57 @@ static void gen_str(rng &r, bool thorough)
         }
 }
 
+static void gen_ua(rng &r, bool thorough)
+{
+    for (const char *ty : {"int", "trk"})
+    {
+        // every constructor / size 0..4, followed by every mutator
+        for (int n = 0; n <= 4; n++)
+            for (const char *k : {"unew", "ufrom", "uil"})
+                for (const char *m : {"uresize 0 0", "uresize 0 3", "uassign 0 1", "uassign 1 0", "uassign 0 0", "ufill 0 7", "uclear 0", "ucopy 2 0", "umove 2 0"})
+                {
+                    P(std::string("reset ua ") + ty + " 3");
+                    if (k[1] == 'n') P("unew 0 " + S(n));
+                    else P(std::string(k) + " 0" + vals(r, n));
+                    P("ufrom 1" + vals(r, (int)r.range(0, 3)));
+                    P(m);
+                    if (n) P("uset 0 0 " + S(val(r)));
+                    P("uresize 1 " + S(r.range(0, 4)));
+                    P("finish");
+                }
+        for (int q = 0; q < (thorough ? 100 : 12); q++)
+        {
+            int K = 3;
+            P(std::string("reset ua ") + ty + " 3");
+            std::vector<int> sz(K, -1);
+            int nops = (int)r.range(8, 40);
+            for (int t = 0; t < nops; t++)
+            {
+                int a = (int)r.below(K), b = (int)r.below(K);
+                if (sz[a] < 0)
+                {
+                    int w = (int)r.below(5);
+                    int n = (int)r.range(0, 6);
+                    if (w == 0) { P("unew " + S(a) + " " + S(n)); sz[a] = n; }
+                    else if (w == 1) { P("ufrom " + S(a) + vals(r, n)); sz[a] = n; }
+                    else if (w == 2) { P("uil " + S(a) + vals(r, n)); sz[a] = n; }
+                    else if (w == 3) { P("ucopy " + S(a) + " " + S(b)); if (sz[b] >= 0) sz[a] = sz[b]; }
+                    else { P("umove " + S(a) + " " + S(b)); if (sz[b] >= 0) { sz[a] = sz[b]; sz[b] = 0; } }
+                    continue;
+                }
+                int w = (int)r.below(100);
+                if (w < 20) { int n = (int)r.range(0, 6); P("uresize " + S(a) + " " + S(n)); sz[a] = n; }
+                else if (w < 40) { P("uassign " + S(a) + " " + S(b)); if (sz[b] >= 0) sz[a] = sz[b]; }
+                else if (w < 55) P("ufill " + S(a) + " " + S(val(r)));
+                else if (w < 75) P("uset " + S(a) + " " + S(r.range(0, std::max(0, sz[a] - 1))) + " " + S(val(r)));
+                else if (w < 85) { P("uclear " + S(a)); sz[a] = 0; }
+                else { P("udel " + S(a)); sz[a] = -1; }
+            }
+            P("finish");
+        }
+    }
+}
+
 int main(int argc, char **argv)
 {
     return main_(
@@ -411,6 +617,7 @@ int main(int argc, char **argv)
             bool th = tier == "thorough";
             gen_vec(r, th);
             gen_str(r, th);
+            gen_ua(r, th);
         },
         run_op);
 }
